@@ -80,7 +80,9 @@ func genRouteTag(t *rapid.T) routeTag {
 		case 5:
 			rt.opts = append(rt.opts, "redirect="+rapid.SampledFrom([]string{"301,https://www.example.com$path", "302,http://h/x", "301", "abc,http://h/", "301,http://%zz/", "308,https://$host$path", "301,/new", "302,/a/b?x=1", "307,//other.example/p"}).Draw(t, "redirect"))
 		case 6:
-			rt.opts = append(rt.opts, rapid.SampledFrom([]string{"allow=ip:10.0.0.0/8", "pxyproto=true", "register=alias", "tlsskipverify=true", "auth=basic1"}).Draw(t, "known"))
+			rt.opts = append(rt.opts, rapid.SampledFrom([]string{"allow=ip:10.0.0.0/8", "pxyproto=true", "register=alias", "tlsskipverify=true", "auth=basic1",
+				// access rules an operator may get wrong: they may close the route, they must not hurt anybody else
+				"allow=10.0.0.0/8", "deny=ip:1.2.3.4,", "allow=ip:", "allow=", "deny=ip:10.0.0.0/33", "allow=ip:1.2.3.4,10.0.0.1", "deny=,"}).Draw(t, "known"))
 		case 7:
 			rt.opts = append(rt.opts, rapid.SampledFrom([]string{`q="x"`, `"`, `a\b`, "ü=é", "flag", "k=v=w", "=", "x="}).Draw(t, "oddopt"))
 		default:
